@@ -43,6 +43,7 @@ type c16Params struct {
 	Count    bool   `json:"count"` // count yield hits (synchronises: no race hunting in this case)
 	FailAt   int    `json:"fail_at,omitempty"`
 	Cmd      string `json:"cmd,omitempty"` // cli-error: commit | merge
+	Spill    bool   `json:"spill,omitempty"` // ingest: a small run size, so that the sorter merges spill files while the workers run
 }
 
 type syncBuf struct {
@@ -150,6 +151,9 @@ func c16Table(blocks int, seed int64) []byte {
 	return gen.ToCSV(t, 0)
 }
 
+// c16RunSize is the sorter's run size of the current case (0 = everything stays in memory).
+var c16RunSize uint64
+
 func ingestWithBars(db objects.Store, csvBytes []byte, workers int, bars bool) ([]byte, error) {
 	var sopts []sorter.SorterOption
 	iopts := []ingest.InserterOption{ingest.WithNumWorkers(workers)}
@@ -167,7 +171,11 @@ func ingestWithBars(db objects.Store, csvBytes []byte, workers int, bars bool) (
 		sopts = append(sopts, sorter.WithProgressBar(sortBar))
 		iopts = append(iopts, ingest.WithProgressBar(blkBar))
 	}
-	sopts = append(sopts, sorter.WithRunSize(1<<30))
+	if c16RunSize > 0 {
+		sopts = append(sopts, sorter.WithRunSize(c16RunSize))
+	} else {
+		sopts = append(sopts, sorter.WithRunSize(1<<30))
+	}
 	s, err := sorter.NewSorter(sopts...)
 	if err != nil {
 		return nil, err
@@ -256,6 +264,13 @@ func c16Run(c *fw.Case, env *fw.Env) *fw.Obs {
 		}
 		if p.Pipeline == "ingest-error" {
 			mem.FailAt = int64(p.FailAt)
+		}
+		c16RunSize = 0
+		if p.Spill {
+			c16RunSize = uint64(len(csvBytes)/5 + 1)
+			// a goroutine the pipeline leaves behind may still be running when the call has returned: give it a moment, so
+			// that what it does (e.g. a send on a channel the caller closed) is attributed to this case
+			defer time.Sleep(150 * time.Millisecond)
 		}
 		var sum []byte
 		var ierr error
@@ -633,6 +648,7 @@ func init() {
 			}
 			for j := 1; j <= writes; j += step {
 				l.Add("ingest-error", c16Params{Pipeline: "ingest-error", Blocks: 10, Workers: []int{4, 6, 10}[j%3], Procs: 4, Yield: uint64(100 + j), Store: "mem", FailAt: j}, 0)
+				l.Add("ingest-error", c16Params{Pipeline: "ingest-error", Blocks: 10, Workers: []int{3, 4, 6}[j%3], Procs: 4, Yield: uint64(200 + j), Store: "mem", FailAt: j, Spill: true}, 0)
 			}
 			for _, fa := range []int{1, 3, 5, 8, 12, 20, 40, 80} {
 				l.Add("merge-error", c16Params{Pipeline: "merge-error", Procs: 4, FailAt: fa}, 0)
